@@ -178,6 +178,9 @@ def gen_plan(rng, tier: str, idx: int, prop: str) -> dict:
         eq = {"kind": "linear", "a": a, "b": rng.uniform(-1, 1) if nonaut else 0.0,
               "w": rng.uniform(0.1, 3) / dt if nonaut else 0.0, "cells": _pick(rng, (1, 2, 3)),
               "u0_seed": rng.randrange(1 << 30)}
+        if rng.random() < 0.2 and a[1] == 0.0 and not adaptive:
+            # a post-step hook with memory: its data must be carried across the segments a run is cut into
+            eq["hook"] = {"period": rng.randint(2, 5), "factor": rng.choice([0.5, 0.9, 1.1])}
     else:
         eq = {"kind": "diffusion", "cells": _pick(rng, (4, 6)), "D": rng.uniform(0.02, 0.2) / dt,
               "bc": _pick(rng, ("auto_periodic_neumann", "auto_periodic_dirichlet")),
@@ -289,6 +292,21 @@ def _make_equation(spec):
                 return a * data + b * np.cos(w * t)
 
             return rhs
+
+    hook = spec.get("hook")
+    if hook:
+        period, factor = int(hook["period"]), float(hook["factor"])
+
+        def make_post_step_hook(self, state, backend="numpy"):
+            def post_step_hook(state_data, t, post_step_data):
+                post_step_data += 1
+                if int(post_step_data) % period == 0:
+                    state_data *= factor
+                return state_data, post_step_data
+
+            return post_step_hook, 0.0
+
+        LinearEq.make_post_step_hook = make_post_step_hook
 
     grid = pde.UnitGrid([spec["cells"]])
     u0 = np.random.default_rng(spec["u0_seed"]).uniform(0.5, 1.5, size=grid.shape)
@@ -730,6 +748,9 @@ def execute(plan: dict) -> dict:
                 fail("C07/t_final-far", f"{tag}: |t_final - t_end| = {abs(t_final - t_end):.6g} is not below dt={dt!r}")
             if t_end <= t_start and steps != 0:
                 fail("C07/steps", f"{tag}: empty range but {steps} steps were made")
+            if plan["eq"].get("hook") and float(run["solver_info"].get("post_step_data", -1)) != float(steps):
+                fail("C07/hook-data-lost", f"{tag}: the post-step hook counted {run['solver_info'].get('post_step_data')!r} calls in {steps} steps "
+                     "(its data must survive the segmentation of the run by trackers)")
             if 0 <= steps < len(traj):
                 if not _same(res.data, traj[steps], exact):
                     fail("C07/state-vs-steps", f"{tag}: final state {res.data!r} is not {steps} applications of the one-step map {traj[steps]!r}")
@@ -1123,6 +1144,8 @@ def simplify(plan):
     if plan["eq"]["kind"] != "linear":
         yield variant(lambda p: p.update(eq={"kind": "linear", "a": [-0.1 / p["dt"], 0.0], "b": 0.0, "w": 0.0, "cells": 2, "u0_seed": 1}))
     else:
+        if plan["eq"].get("hook"):
+            yield variant(lambda p: p["eq"].pop("hook"))
         if plan["eq"]["b"] != 0.0:
             yield variant(lambda p: p["eq"].update(b=0.0, w=0.0))
         if plan["eq"]["a"][1] != 0.0:
